@@ -217,9 +217,10 @@ class Env:
 
 
 class Op:
-    __slots__ = ("name", "kind", "needs", "tool", "fn", "faults", "group", "doc")
+    __slots__ = ("name", "kind", "needs", "tool", "fn", "faults", "group", "doc", "ck")
 
-    def __init__(self, name, kind, fn, tool=None, needs=None, faults=(), group="", doc=None):
+    def __init__(self, name, kind, fn, tool=None, needs=None, faults=(), group="", doc=None, ck=None):
+        self.ck = ck
         self.name = name
         self.kind = kind
         self.fn = fn
@@ -526,6 +527,24 @@ def build_ops(gen_docs=None):
     for ck in ("m_ns.Child", "m_ns.Mid", "m_ns.Node"):
         for pns in (None, "urn:a", "urn:b"):
             ops.append(op_meta(ck, pns, None))
+    # the class each operation is about (None for class-less lookups)
+    doc_ck = {}
+    for table in (C.XML, C.BAD_XML, gen_docs["xml"], C.JSON, C.BAD_JSON, gen_docs["json"]):
+        for name, (_, ck, _) in table.items():
+            doc_ck[name] = ck
+    obj_ck = {name: ck for name, (_, ck) in C.OBJS.items()}
+    for op in ops:
+        parts = op.name.split(":")
+        if op.kind == "parse_xml":
+            op.ck = doc_ck.get(parts[2])
+        elif op.kind in ("user_parse", "tree_parse"):
+            op.ck = doc_ck.get(parts[2])
+        elif op.kind in ("parse_json", "dict_decode"):
+            op.ck = doc_ck.get(parts[1])
+        elif op.kind in ("ser_xml",):
+            op.ck = obj_ck.get(parts[2])
+        elif op.kind in ("tree_ser", "ser_json", "dict_encode", "pycode"):
+            op.ck = obj_ck.get(parts[1])
     names = [o.name for o in ops]
     assert len(names) == len(set(names)), [n for n in names if names.count(n) > 1][:5]
     return ops
